@@ -400,11 +400,14 @@ theorem step_TInv (p : P) (h : TInv p) (op : Op) (hv : handlesValid p op = true)
   | setTid t tid =>
     simp only [handlesValid, decide_eq_true_eq] at hv
     simp only [step, P.threads_get hv]
-    have hth := h.thread (P.threads_get hv)
-    have h1 : TInv { p with usedTids := (makeUnique p.usedTids tid).1 } :=
-      h.of (GB.le_refl _) h.libs h.gstr (fun t ht => Or.inl ht) h.subsPos h.schemaCats h.statics h.maps
-        h.counters h.visible h.selected
-    exact h1.setThread t _ hth
+    refine h.of (GB.le_refl _) h.libs h.gstr ?_ h.subsPos h.schemaCats h.statics h.maps
+      h.counters ?_ ?_
+    · intro x hx
+      rcases List.mem_modify _ _ _ _ hx with hx | ⟨y, hy, rfl⟩
+      · exact Or.inl hx
+      · exact Or.inr (h.threads y hy)
+    · simpa using h.visible
+    · simpa using h.selected
   | setName t name =>
     simp only [handlesValid, decide_eq_true_eq] at hv
     simp only [step, P.threads_get hv]
